@@ -63,7 +63,7 @@ class TwinBuffer:
                 i = i.as_long()
         if _isinstance(i, _int):
             c = self._cells.get(i)
-            return c if c is not None else self._base(z3.IntVal(i))
+            return sx._zi(c) if c is not None else self._base(z3.IntVal(i))
         if self._cells:
             self._flush()
         return self._base(i)
@@ -77,7 +77,7 @@ class TwinBuffer:
         def get(i):
             r = base(i)
             for k in keys:
-                r = z3.If(i == k, cells[k], r)
+                r = z3.If(i == k, sx._zi(cells[k]), r)
             return r
 
         self._base = get
@@ -91,7 +91,8 @@ class TwinBuffer:
             v = z3.simplify(length.e)
             length = v.as_long() if z3.is_int_value(v) else length
         if _isinstance(start, _int) and _isinstance(length, _int) and length <= 4096:
-            return SymBytes.from_items([self._get(start + k) for k in range(length)])
+            cells = self._cells
+            return SymBytes.from_items([cells[start + k] if (start + k) in cells else sx._norm_item(z3.simplify(self._base(z3.IntVal(start + k)))) for k in range(length)])
         if self._cells:
             self._flush()
         g = self._base
@@ -119,6 +120,10 @@ class TwinBuffer:
 
     def _byte(self, k):
         p = self._pos + k
+        if _isinstance(p, _int):
+            c = self._cells.get(p)
+            if _isinstance(c, _int):
+                return c
         v = z3.simplify(self._get(p if _isinstance(p, _int) else p.e))
         if z3.is_int_value(v):
             return v.as_long()
@@ -162,6 +167,7 @@ class TwinBuffer:
             pz = _z(pos)
             g = self._base
             vv = list(vals)
+            vv = [sx._zi(x) for x in vv]
             self._base = lambda i: z3.If(z3.And(i >= pz, i < pz + n), sx._sel_chain(i - pz, vv), g(i))
         self._pos = self._pos + n
 
